@@ -55,7 +55,9 @@ SYMBOLS = ['.', 'o', 'v', '^', '<', '>', 's', 'p', '*', 'h', 'H', '+', 'x',
 # are not generated: the line grammar splits on them and CRTF has no escape)
 TEXTS = ['a', 'hello world', '', "3'", '30"', "'quoted'", '"M 31" field',
          "it's", 'a, b', 'hash # tag', ' lead', 'trail ', 'a]b', 'über',
-         'a\\b', "5' x 3'"]
+         'a\\b', "5' x 3'",
+         # characters str.splitlines() - not CRTF - takes for line ends
+         'form\x0cfeed', 'NGC 1\u2028field', 'x\x85y', 'gs\x1dz', 'a\x0bb']
 
 
 # labels are quoted strings: commas, brackets, '=', blanks at either end and
@@ -63,7 +65,8 @@ TEXTS = ['a', 'hello world', '', "3'", '30"', "'quoted'", '"M 31" field',
 # of quote cannot be written: CRTF has no escape)
 LABELS = ['lab', 'my label', 'A-1', 'x y z', "3'", '30"', "it's", 'a, b',
           ' lead', 'trail ', 'a]b', 'a [b]', 'k=v', '"M 31" field', 'über',
-          'hash # tag']
+          'hash # tag', 'form\x0cfeed', 'NGC 1\u2028field', 'x\x85y',
+          'gs\x1dz', 'p\u2029q']
 
 
 def crtf_meta():
